@@ -8,6 +8,7 @@
 #include <fcntl.h>
 #include <link.h>
 #include <map>
+#include <signal.h>
 #include <sys/mman.h>
 #include <sys/stat.h>
 #include <typeinfo>
@@ -252,6 +253,32 @@ namespace vh {
         _exit(3);
     }
 
+    static void on_signal(int sig, siginfo_t* si, void*)
+    {
+        if (g_reporting) _exit(4);
+        g_reporting = true;
+        if (g_gdb_on_fail) gdb_dump();
+        emit_result("crash", "crash",
+            sfmt("signal %d (%s) fault address %p in simulated thread T%d", sig, strsignal(sig),
+                si ? si->si_addr : nullptr, sim_tid()));
+        _exit(3);
+    }
+
+    void install_crash_handlers()
+    {
+        static char altstack[1 << 16];
+        stack_t ss;
+        ss.ss_sp = altstack;
+        ss.ss_size = sizeof(altstack);
+        ss.ss_flags = 0;
+        sigaltstack(&ss, nullptr);
+        struct sigaction sa;
+        memset(&sa, 0, sizeof(sa));
+        sa.sa_sigaction = on_signal;
+        sa.sa_flags = SA_SIGINFO | SA_ONSTACK | SA_NODEFER;
+        for (int s : {SIGSEGV, SIGBUS, SIGFPE, SIGILL, SIGABRT}) sigaction(s, &sa, nullptr);
+    }
+
     static void on_terminate()
     {
         if (g_reporting) _exit(4);
@@ -328,6 +355,7 @@ namespace vh {
     {
         g_ctx = &ctx;
         std::set_terminate(on_terminate);
+        install_crash_handlers();
         sim_set_fail_handler(on_sim_fail);
         if (ctx.have_script) sim_set_script(ctx.script.data(), ctx.script.size());
         g_log.reserve(1 << 14);
